@@ -268,3 +268,54 @@ pub fn score_eq(a: Score, b: Score) -> bool {
         _ => false,
     }
 }
+
+
+// ---------------------------------------------------------------------------------------
+// "logging on" configuration: a subscriber that enables INFO and DEBUG (not TRACE) events of
+// the engine and formats every field, the way `chess-cli -v` or the WASM front end do. The
+// search must behave the same (and in particular not panic) with logging on.
+
+struct LoudSubscriber;
+
+struct FormatAll(usize);
+
+impl Visit for FormatAll {
+    fn record_debug(&mut self, _field: &Field, value: &dyn std::fmt::Debug) {
+        use std::fmt::Write;
+        let mut s = String::new();
+        let _ = write!(s, "{value:?}");
+        self.0 += s.len();
+    }
+}
+
+impl Subscriber for LoudSubscriber {
+    fn register_callsite(&self, meta: &'static Metadata<'static>) -> Interest {
+        if *meta.level() <= tracing::Level::DEBUG {
+            Interest::always()
+        } else {
+            Interest::never()
+        }
+    }
+    fn enabled(&self, meta: &Metadata<'_>) -> bool {
+        *meta.level() <= tracing::Level::DEBUG
+    }
+    fn max_level_hint(&self) -> Option<tracing::level_filters::LevelFilter> {
+        Some(tracing::level_filters::LevelFilter::DEBUG)
+    }
+    fn new_span(&self, _: &Attributes<'_>) -> Id {
+        Id::from_u64(1)
+    }
+    fn record(&self, _: &Id, _: &Record<'_>) {}
+    fn record_follows_from(&self, _: &Id, _: &Id) {}
+    fn event(&self, event: &Event<'_>) {
+        let mut v = FormatAll(0);
+        event.record(&mut v);
+    }
+    fn enter(&self, _: &Id) {}
+    fn exit(&self, _: &Id) {}
+}
+
+/// the same search with INFO/DEBUG logging enabled and every event field formatted
+pub fn run_search_loud(board: &Board, tf: &ThreeFold, limit: u64, positional: bool) -> Result<((Option<ChessMove>, Score), u16, u64, bool), SearchError> {
+    tracing::subscriber::with_default(LoudSubscriber, || run_search(board, tf, limit, positional))
+}
